@@ -1,9 +1,9 @@
 SPECIFICATION Spec
 CONSTANTS
-  Conns = {1, 2}
+  Conns = {1}
   Kinds = {"server", "out", "in"}
   Obfs = {FALSE}
-  SlowListener = FALSE
+  SlowListener = TRUE
   GuardAcceptFinish = TRUE
   CloseOnCancel = TRUE
   AbortConnectOnClose = TRUE
